@@ -282,7 +282,7 @@ func main() {
 		}
 		return c
 	}
-	kinds := []string{"mem", "frag", "mbapp", "mux-string", "multi", "map", "wl", "p2pke"}
+	kinds := []string{"mem", "frag", "mbapp", "mux-string", "multi", "multi-ask", "map", "wl", "p2pke"}
 	if run.Thorough() {
 		kinds = stacks.Kinds
 	}
